@@ -254,4 +254,60 @@ def known(case: Dict[str, Any], v: Violation, out: Outcome) -> Optional[str]:
     return None
 
 
+# ---------------------------------------------------------------------------------------------------------------
+# sources that need time to answer: polls still happen once per minute boundary and nothing is sent twice in a minute
+
+
+def run_slow_case(case: Dict[str, Any]) -> Outcome:
+    out = Outcome()
+    out.clauses_checked = ["C15.a", "C15.b"]
+    res = sched.run_sched(case)
+    if res["crashed"] or res["deadlock"]:
+        out.add("C15.d", f"scheduler loop stopped: {res['loop_exc']}")
+        return out
+    polls = list(res["polls"].values())
+    n_pass = min(len(p) for p in polls)
+    ent = {e["id"]: e for s_ in case["sources"] for e in s_["entries"]}
+    prev_eval = None
+    crossed = False
+    for j in range(n_pass):
+        if any("ret" not in p[j] for p in polls):
+            break
+        start = min(p[j]["t"] for p in polls)
+        ev = max(p[j]["ret"] for p in polls)
+        crossed = crossed or start // MIN != ev // MIN
+        if j > 0:
+            if start % MIN != 0:
+                out.add("C15.a", f"poll #{j} started at {_fmt(start)}, not at a minute boundary")
+            elif prev_eval is not None and start // MIN <= prev_eval // MIN:
+                out.add("C15.a", f"poll #{j} started at {_fmt(start)} although the schedules of that minute had already been evaluated at {_fmt(prev_eval)} "
+                                 f"(two polls for one minute)")
+        prev_eval = ev
+    per_min: Dict[Any, List[int]] = {}
+    for k in res["kicks"]:
+        if k["tag"] in ent:
+            per_min.setdefault((k["tag"], k["t"] // MIN), []).append(k["t"])
+    for (tag, m), ts in sorted(per_min.items()):
+        if len(ts) > 1:
+            out.add("C15.b", f"cron {tag} {ent[tag]['cron']!r} was sent {len(ts)} times in minute {_fmt(m * MIN)}: at {[_fmt(t) for t in ts]} "
+                             f"(listing latencies {[s_['list_latency'] for s_ in case['sources']]})")
+            break
+    out.nontrivial = crossed
+    out.classes = ["slow_sources"] + (["listing_crossed_minute_boundary"] if crossed else [])
+    out.trace = {"kicks": [[_fmt(k["t"]), k["tag"]] for k in res["kicks"][:20]]}
+    return out
+
+
+_base_parts15, _base_run15 = parts, run_case
+
+
+def parts(tier: str) -> List[Part]:  # type: ignore[no-redef]
+    n = 2000 if tier == "thorough" else 120
+    return _base_parts15(tier) + [Part("slow_sources", "given", shards=4, examples=n, strategy=c13.loop_runs, soft_deadline_s=1500 if tier == "thorough" else 100)]
+
+
+def run_case(case: Dict[str, Any]) -> Outcome:  # type: ignore[no-redef]
+    return run_slow_case(case) if case.get("loop") else _base_run15(case)
+
+
 SELFTEST_CASES = []
